@@ -743,6 +743,21 @@ class Interp:
                         raise PanicEx('no capture group at index %r' % (idx,), e)
                     return Ref(self.alloc(g[idx]), ())
                 raise Unsupported('named capture groups', e)
+            if isinstance(cont, str) and isinstance(idx, Opaque) and idx.tag == 'Range':
+                # str slicing is by UTF-8 byte offsets and panics off a character boundary
+                b = cont.encode('utf-8', 'surrogatepass')
+                st = self.deref(idx.get('start')) if idx.get('start') is not None else 0
+                en = self.deref(idx.get('end')) if idx.get('end') is not None else len(b)
+                if not isinstance(st, int) or not isinstance(en, int):
+                    raise Unsupported('symbolic str slice bounds', e)
+                if idx.get('closed'):
+                    en += 1
+                if st > en or en > len(b):
+                    raise PanicEx('byte index out of range for str slice [%d..%d] of %r' % (st, en, cont), e)
+                for pos in (st, en):
+                    if 0 < pos < len(b) and (b[pos] & 0xC0) == 0x80:
+                        raise PanicEx('byte index %d is not a char boundary of %r' % (pos, cont), e)
+                return Ref(self.alloc(b[st:en].decode('utf-8', 'surrogatepass')), ())
             if isinstance(cont, Opaque) and cont.tag == 'Buffer' and isinstance(idx, Opaque) and idx.tag == 'Range':
                 return Ref(self.alloc(Opaque('Slice', chunk=cont.get('chunk'), upto=idx.get('end'))), ())
             if isinstance(cont, RVec):
